@@ -6,7 +6,7 @@
    so the statements speak about "the lines that were there" (a suffix of the
    working lines) and about an index that moves with them. *)
 From Coq Require Import ZArith List Bool Lia.
-From PTK Require Import Lib.Sx Lib.Py Model.Document Model.BufferEdit Model.C14_HistoryNav
+From PTK Require Import Lib.Sx Lib.Py Model.Document Model.BufferEdit Lib.C14_Handlers Gen.C14_Handlers Model.C14_HistoryNav
   Proofs.C14_Facts Proofs.C14_Nav Proofs.C14_Accept Proofs.C14_Mixed Proofs.C14_Threaded.
 Import ListNotations.
 Open Scope Z_scope.
@@ -641,17 +641,23 @@ Qed.
 (* ---------------------------------------------------------------------- *)
 (* every history-related key handler (with any numeric argument) is a
    navigation operation, so all the laws above apply to it *)
-Lemma handler_op_nav h a o : handler_op h a = Some o -> is_nav o.
+Lemma call_op_nav k a o : call_op k a = Some o -> is_nav o.
 Proof.
-  unfold handler_op. cbv zeta.
-  repeat (destruct (h =? _); [intros H; inversion H; exact I|]).
-  destruct (h =? 7); [destruct a; intros H; inversion H; exact I|].
-  repeat (destruct (h =? _); [intros H; inversion H; exact I|]).
-  discriminate.
+  destruct k; cbn [call_op]; destruct (count_of c a); intros H; inversion H; exact I.
 Qed.
 
-Lemma event_arg_bound a : event_arg a < 1000000.
-Proof. destruct a; cbn [event_arg]; try lia. destruct (1000000 <=? z) eqn:E; lia. Qed.
+Lemma calls_op_nav cs a o : calls_op cs a = Some o -> is_nav o.
+Proof.
+  unfold calls_op. destruct (is_end_of_history cs); [intros H; inversion H; exact I|].
+  destruct cs as [|k [|k2 r]]; try discriminate. apply call_op_nav.
+Qed.
+
+(* whatever the regenerated table says *)
+Lemma handler_op_nav h a o : handler_op h a = Some o -> is_nav o.
+Proof.
+  unfold handler_op. destruct (find_handler h _) as [r|]; [|discriminate].
+  destruct a; [destruct (h_needs_arg r); [discriminate|]| |]; apply calls_op_nav.
+Qed.
 
 (* ---------------------------------------------------------------------- *)
 (* a new session (new ThreadedHistory object on the same backend), the loader
@@ -669,4 +675,34 @@ Proof.
   assert (Hn0 : (length (sto (store s0)) < n)%nat) by (unfold s0; proj; exact Hn).
   destruct (reset_clean_threaded c s0 [] 0 n C0 Hn0) as (A & B & C & _ & D & E & F).
   unfold s0 in *; proj. auto 10.
+Qed.
+
+(* ---------------------------------------------------------------------- *)
+(* every row of the REGENERATED handler table is inside the model (finite fact,
+   re-proved whenever the table changes), for every numeric argument *)
+Lemma count_of_none c a b : count_of c a = None -> count_of c b = None.
+Proof. destruct c; cbn [count_of]; auto; discriminate. Qed.
+
+Lemma call_op_none k a b : call_op k a = None -> call_op k b = None.
+Proof.
+  destruct k; cbn [call_op]; destruct (count_of c a) eqn:E; try discriminate;
+    rewrite (count_of_none c a b E); reflexivity.
+Qed.
+
+Lemma calls_op_none cs a b : calls_op cs a = None -> calls_op cs b = None.
+Proof.
+  unfold calls_op. destruct (is_end_of_history cs); [discriminate|].
+  destruct cs as [|k [|k2 r]]; auto. apply call_op_none.
+Qed.
+
+Definition row_modelled (r : hrow) : bool :=
+  match calls_op (h_calls r) ANone with Some _ => true | None => false end.
+
+Lemma handlers_all_modelled_b : forallb row_modelled handlers = true.
+Proof. vm_compute. reflexivity. Qed.
+
+Lemma handlers_all_modelled r a : In r handlers -> calls_op (h_calls r) a <> None.
+Proof.
+  intros Hin Hn. pose proof (proj1 (forallb_forall _ _) handlers_all_modelled_b r Hin) as M.
+  unfold row_modelled in M. rewrite (calls_op_none _ a ANone Hn) in M. discriminate.
 Qed.
